@@ -129,6 +129,10 @@ func scenarioC06Encoded(c *hlib.RunCtx) *hlib.Violation {
 		kv = append(kv, [2]string{"Extra: key", "value: with colon "})
 	}
 	meta := refformat.MetaText(kv[:t.Range(0, len(kv))])
+	if t.Bool(1, 12) {
+		meta = "" // no metadata at all: what the library's own header writer makes of an empty string
+		w.s.Probe("empty-metadata")
+	}
 	if t.Bool(1, 3) {
 		// Metadata of other shapes than the library writes: the lines in another
 		// order and under other keys, empty values, values that hold ": ", and
@@ -211,7 +215,10 @@ func scenarioC06Encoded(c *hlib.RunCtx) *hlib.Violation {
 	c.Note(fmt.Sprintf("encoded-style-%d", style))
 	c.Sample = map[string]any{"style": style, "records": len(pairs), "size": len(data)}
 	w.s.Logf("case", "style %d records %d size %d content %x", style, len(pairs), len(data), sha256.Sum256(data))
-	if _, strictErr := refformat.Decode(data); strictErr != nil {
+	if _, strictErr := refformat.Decode(data); strictErr != nil && c.Prop != "C06" {
+		// (C06 speaks of every file that is well-formed by the documented layout, and
+		// demands a faithful reading of these too; C10's "read identically" is about
+		// files laid out as the v1 format lays them out)
 		// Well-formed by the layout comment alone, but not as the library's writers
 		// lay files out (records across the tail of a page, a file that is not a
 		// whole number of pages): a reader may refuse it; if it reads it, it reads
